@@ -2,6 +2,7 @@ package main
 
 import (
 	"flag"
+	"runtime/pprof"
 	"fmt"
 	"os"
 	"path/filepath"
@@ -95,7 +96,13 @@ func cmdRun(args []string) {
 	timeout := fs.Int("timeout", 60000, "per-query timeout ms")
 	params := paramFlag{}
 	fs.Var(params, "param", "harness parameter k=v (repeatable)")
+	prof := fs.String("cpuprofile", "", "write cpu profile")
 	fs.Parse(args)
+	if *prof != "" {
+		f, _ := os.Create(*prof)
+		pprof.StartCPUProfile(f)
+		defer pprof.StopCPUProfile()
+	}
 	ov, err := loadOverlay()
 	if err != nil {
 		fmt.Fprintln(os.Stderr, err)
